@@ -406,7 +406,9 @@ GENERIC_RUNS = ["F-22-20160622", "a1" * 16]
 # still expensive when the conversion is exact for huge magnitudes.  Families grow one character at a time.
 NUMBER_FAMILIES = [("1e", "9", ""), ("1E+", "9", ""), ("1e-", "9", ""), ("9e", "9", ""), (".1e", "9", ""), ("1.5e", "9", ""), ("-1e", "9", ""), ("1e", "9", ".0"),
                    ("1", "0", ""), ("-", "9", ""), ("0.", "0", "1"), ("1", "_0", ""), ("0x", "f", ""), ("1e", "0", "1"), ("", "9", "e9"), ("", "9", "e99"),
-                   ("", "\u0661", ""), ("1e", "\u0669", ""), (" ", "9", " "), ("+", "1", ""), ("1e+", "0", "9"), ("inf", "f", ""), ("1", "e1", ""), ("", "1.", "1")]
+                   ("", "\u0661", ""), ("1e", "\u0669", ""), (" ", "9", " "), ("+", "1", ""), ("1e+", "0", "9"), ("inf", "f", ""), ("1", "e1", ""), ("", "1.", "1"),
+                   # spans: the cost of a notation that is expanded lies in the VALUE of its bound
+                   ("1-", "9", ""), ("0-", "9", ""), ("1..", "9", ""), ("1:", "9", ""), ("1-", "9", ",1"), ("1,2-", "9", ""), ("[1-", "9", "]"), ("1*", "9", ""), ("", "9", "-1")]
 NUMBER_LENGTHS = list(range(1, 15)) + [20, 32, 48]
 
 
